@@ -1413,6 +1413,7 @@ func (g *Gen) callSiteObls(st *BState, in ssa.Instruction, callee *ssa.Function,
 			continue
 		}
 		cl.Loop = 1 // seen
+		g.siteCanary(st, label, pos)
 		env := g.baseEnv(st.heap, g.entryHeap)
 		b := in.Block()
 		params := env.vars
@@ -1433,6 +1434,23 @@ func (g *Gen) callSiteObls(st *BState, in ssa.Instruction, callee *ssa.Function,
 		}
 		g.addObl(st, "A", anchor+":"+cl.Name, pos, g.clauseProps(cl, g.allProps()), t, cl.Src)
 	}
+}
+
+// siteCanary: the call a call-site or covers clause is about must be reachable (once per label): a clause on a call
+// that the assumptions make dead holds vacuously, and the per-function canaries do not see that.
+func (g *Gen) siteCanary(st *BState, label, pos string) {
+	if !*flagCanary {
+		return
+	}
+	if g.siteCanaries == nil {
+		g.siteCanaries = map[string]bool{}
+	}
+	if g.siteCanaries[label] {
+		return
+	}
+	g.siteCanaries[label] = true
+	o := g.addObl(st, "V", "site:"+label+":can-be-reached", pos, g.allProps(), "false", "canary: the call this clause is about is reachable under the function's assumptions")
+	o.MustBeSat = true
 }
 
 // ownR: the reference whose allocation decides whether address ref of region r exists: the address
@@ -1516,6 +1534,7 @@ func (g *Gen) dynCallSiteObls(st *BState, in ssa.Instruction, c *ssa.CallCommon,
 			continue
 		}
 		cl.Loop = 1 // seen
+		g.siteCanary(st, label, pos)
 		env := g.baseEnv(st.heap, g.entryHeap)
 		params := env.vars
 		env.vars = map[string]EnvVal{}
